@@ -20,7 +20,7 @@ from pathlib import Path
 
 from mon import core
 
-MAX_REPLAYS = 5
+MAX_REPLAYS = 12
 
 
 def _parse(argv: list[str]) -> argparse.Namespace:
